@@ -5,6 +5,8 @@
 #include "cb.contracts.h"
 #ifdef V_RESET_UNIT
 #include "fd.contracts.h"
+#elif defined(V_REG_UNIT)
+#include "reg.contracts.h"
 #else
 #include "mod.contracts.h"
 #endif
@@ -14,7 +16,7 @@
 V_DEFINE_INPUTS(H_INPUTS)
 #include "vbuild.h"
 
-#ifndef V_RESET_UNIT
+#if !defined(V_RESET_UNIT) && !defined(V_REG_UNIT)
 static void build_mod(void) {
     build();
     V_ASSUME(vin_others < ((uint64_t)1 << 59) && vin_ips_ret <= 0 && vin_ms_ret <= 0 && vin_ips_ret > -200 && vin_ms_ret > -200);
@@ -109,6 +111,20 @@ void h_reset_module(void) {
     g_bound->len = vin_null_ref;
     reset_module(g_mod);
     V_COVER("reset-open-pipe", vin_from_user); V_COVER("reset-never-started", !vin_from_user); V_COVER("reset-no-subscriptions", !vin_hook);
+    V_CANARY();
+}
+#endif
+
+#ifdef V_REG_UNIT
+void h_mod_register(void) {
+    build();
+    V_ASSUME(vin_maprm_ret <= 0 && vin_maprm_ret > -200 && vin_ctxdereg_ret <= 0 && vin_ctxdereg_ret > -200 && vin_nmods < ((uint64_t)1 << 59));
+    g_mctx = g_ctx; g_ctx->finalized = false; g_modules->len = vin_nmods;
+    g_oldmod = vin_hook ? g_mod : NULL; g_dereg_ret = vin_maprm_ret; g_mapput_ret = vin_ctxdereg_ret; g_modref = NULL;
+    static const char nm[2] = "m"; static m_mod_hook_t hk; hk.on_evt = v_on_evt; hk.on_start = NULL; hk.on_stop = NULL; hk.on_eval = NULL;
+    int r = m_mod_register(nm, &g_modref, &hk, (m_mod_flags)(vin_ms_ret & ~M_MOD_NAME_DUP), NULL);
+    V_COVER("reg-fresh-name", r == 0 && !vin_hook); V_COVER("reg-eexist", r == -EEXIST); V_COVER("reg-replace", r == 0 && vin_hook); V_COVER("reg-replace-dereg-fails", vin_hook && r != 0 && r != -EEXIST);
+    V_COVER("reg-new-allows-replace-old-does-not", r == -EEXIST && ((vin_ms_ret & M_MOD_ALLOW_REPLACE) != 0));
     V_CANARY();
 }
 #endif
